@@ -25,6 +25,10 @@ pub struct Case {
     /// error is returned whatever headers it carries; 5xx is retried with the ordinary backoff
     #[serde(default = "d429")]
     pub status: u16,
+    /// 0 `download`, 1 `download_with_resume(.., None)`, 2 `download_archive_index`: three entry
+    /// points documented to run the same retry policy
+    #[serde(default)]
+    pub api: u8,
 }
 
 fn d429() -> u16 {
@@ -39,13 +43,25 @@ pub fn all_cases() -> Vec<Case> {
             if h == Some("1") && n429 > 2 {
                 continue; // 3 s of waiting add nothing
             }
-            v.push(Case { header: h.map(str::to_string), n429, status: 429 });
+            v.push(Case { header: h.map(str::to_string), n429, status: 429, api: 0 });
         }
     }
     // other error statuses carrying a Retry-After header
     for status in [403u16, 404, 410, 500, 503] {
         for h in [Some("0"), Some("1"), None] {
-            v.push(Case { header: h.map(str::to_string), n429: 2, status });
+            v.push(Case { header: h.map(str::to_string), n429: 2, status, api: 0 });
+        }
+    }
+    // the other entry points, and servers that do not recover within the policy's retries (4 and 9
+    // error answers: the call makes exactly 1 + 3 requests and returns the last error)
+    for api in 0..3u8 {
+        for (status, h) in [(429u16, Some("0")), (503, None), (500, None)] {
+            for n429 in [1u8, 3, 4, 9] {
+                if api == 0 && n429 <= 3 && status == 429 {
+                    continue;
+                }
+                v.push(Case { header: h.map(str::to_string), n429, status, api });
+            }
         }
     }
     v
@@ -104,6 +120,7 @@ pub fn check(c: &Case) -> Verdict {
     let log: Arc<Mutex<Vec<Instant>>> = Arc::new(Mutex::new(Vec::new()));
     let log2 = Arc::clone(&log);
     let case = c.clone();
+    let case_api = c.api;
     let res = rt.block_on(async move {
         let listener = tokio::net::TcpListener::bind("127.0.0.1:0").await.map_err(|e| format!("bind: {e}"))?;
         let port = listener.local_addr().map_err(|e| e.to_string())?.port();
@@ -112,7 +129,11 @@ pub fn check(c: &Case) -> Verdict {
         let client = CdnClient::new(Arc::new(cache), CdnConfig::default()).map_err(|e| format!("CdnClient::new: {e}"))?;
         let ep = CdnEndpoint { host: format!("127.0.0.1:{port}"), path: "tpr/test".into(), product_path: None, scheme: Some("http".into()), is_fallback: false, strict: false, max_hosts: None };
         let key = [0xABu8, 0xCD, 1, 2, 3, 4, 5, 6, 7, 8, 9, 10, 11, 12, 13, 14];
-        let r = tokio::time::timeout(Duration::from_secs(120), client.download(&ep, ContentType::Data, &key)).await;
+        let r = match case_api {
+            1 => tokio::time::timeout(Duration::from_secs(120), client.download_with_resume(&ep, ContentType::Data, &key, None)).await,
+            2 => tokio::time::timeout(Duration::from_secs(120), client.download_archive_index(&ep, "abcd0102030405060708090a0b0c0d0e")).await,
+            _ => tokio::time::timeout(Duration::from_secs(120), client.download(&ep, ContentType::Data, &key)).await,
+        };
         server.abort();
         Ok::<_, String>(r)
     });
@@ -138,6 +159,16 @@ pub fn check(c: &Case) -> Verdict {
         };
     }
     let hint = if c.status == 429 { hint } else { None };
+    v = v.class(["api:download", "api:download_with_resume(None)", "api:download_archive_index"][usize::from(c.api.min(2))]);
+    if c.n429 > 3 {
+        // the default policy: one attempt and three retries, then the last error
+        return match r {
+            Err(_) => Verdict::fail("C14:cdn-429:download-does-not-return-within-120s", what),
+            Ok(Ok(_)) => Verdict::fail("C14:cdn-retries:result-of-an-attempt-beyond-the-configured-retries-returned", format!("{what}: Ok after {} requests; the default policy allows 1 + 3 attempts", times.len())),
+            Ok(Err(_)) if times.len() != 4 => Verdict::fail("C14:cdn-retries:more-or-fewer-requests-than-one-plus-the-configured-retries", format!("{what}: the server saw {} requests, the default policy makes 1 + 3", times.len())),
+            Ok(Err(_)) => v.class("server-never-recovers:4-requests-then-error"),
+        };
+    }
     match r {
         Err(_) => return Verdict::fail("C14:cdn-429:download-does-not-return-within-120s", what),
         Ok(Err(e)) => return Verdict::fail("C14:cdn-429:gives-up-within-the-configured-retries", format!("{what}: download returned Err({e}) after {} requests; the default policy allows 3 retries", times.len())),
